@@ -69,7 +69,8 @@ def _xc_decodable(b, e):
 
 
 def _xc_dec(b, e):
-    return b.decode(e)
+    # total, like the uninterpreted function it stands for (the contract only looks at dec where the codec accepts the bytes)
+    return b.decode(e) if _xc_decodable(b, e) else "\0undecodable(%r, %r)" % (b, e)
 
 
 def _xc_cookie(b):
